@@ -251,6 +251,27 @@ type c14Script struct {
 	fail    bool
 	replies int
 	split   bool // set header and trailer metadata one value per call
+	// the header metadata reaches the stream in two steps: all keys but the last through
+	// SetHeader, the last one through SendHeader — what was queued first must not be lost
+	sendLast bool
+}
+
+// c14SplitLast: md without its (alphabetically) last key, and that key alone.
+func c14SplitLast(md metadata.MD) (rest, last metadata.MD) {
+	keys := make([]string, 0, len(md))
+	for k := range md {
+		keys = append(keys, k)
+	}
+	sort.Strings(keys)
+	rest, last = metadata.MD{}, metadata.MD{}
+	for i, k := range keys {
+		if i == len(keys)-1 {
+			last[k] = md[k]
+		} else {
+			rest[k] = md[k]
+		}
+	}
+	return
 }
 
 // c14Extra: a trailer key that is also a header key over gRPC-web, and header metadata in
@@ -414,7 +435,14 @@ func c14Main(c *Ctx, withStats bool) {
 	var seen metadata.MD
 	run := func(ctx context.Context) error {
 		seen, _ = metadata.FromIncomingContext(ctx)
-		if sc.split {
+		if sc.sendLast && len(sc.header) > 0 {
+			rest, last := c14SplitLast(sc.header)
+			grpc.SetHeader(ctx, rest)  //nolint
+			grpc.SendHeader(ctx, last) //nolint
+			if len(sc.trailer) > 0 {
+				grpc.SetTrailer(ctx, sc.trailer) //nolint
+			}
+		} else if sc.split {
 			c14SetSplit(sc.header, func(md metadata.MD) { grpc.SetHeader(ctx, md) })   //nolint
 			c14SetSplit(sc.trailer, func(md metadata.MD) { grpc.SetTrailer(ctx, md) }) //nolint
 		} else {
@@ -441,7 +469,11 @@ func c14Main(c *Ctx, withStats bool) {
 			return err
 		}
 		seen, _ = metadata.FromIncomingContext(st.Context())
-		if sc.split {
+		if sc.sendLast && len(sc.header) > 0 {
+			rest, last := c14SplitLast(sc.header)
+			st.SetHeader(rest)  //nolint
+			st.SendHeader(last) //nolint
+		} else if sc.split {
 			c14SetSplit(sc.header, func(md metadata.MD) { st.SetHeader(md) }) //nolint
 		} else if len(sc.header) > 0 {
 			st.SetHeader(sc.header) //nolint
@@ -508,9 +540,9 @@ func c14Main(c *Ctx, withStats bool) {
 	sameVals := func(got, want []string) bool { return strings.Join(got, "\x00") == strings.Join(want, "\x00") }
 
 	for i := 0; i < c.N(60, 1500); i++ {
-		sc = c14Script{header: genMD("h-", c.Rng.Intn(3) == 0), trailer: genMD("t-", c.Rng.Intn(3) == 0), fail: c.Rng.Intn(2) == 0, replies: c.Rng.Intn(3), split: c.Rng.Intn(2) == 0}
+		sc = c14Script{header: genMD("h-", c.Rng.Intn(3) == 0), trailer: genMD("t-", c.Rng.Intn(3) == 0), fail: c.Rng.Intn(2) == 0, replies: c.Rng.Intn(3), split: c.Rng.Intn(2) == 0, sendLast: c.Rng.Intn(4) == 0}
 		reqMD := genMD("q-", false)
-		in := fmt.Sprintf("req=%s hdr=%s trl=%s fail=%v replies=%d one-value-per-call=%v stats-handler=%v", mdLine(reqMD), mdLine(sc.header), mdLine(sc.trailer), sc.fail, sc.replies, sc.split, withStats)
+		in := fmt.Sprintf("req=%s hdr=%s trl=%s fail=%v replies=%d one-value-per-call=%v last-header-key-through-SendHeader=%v stats-handler=%v", mdLine(reqMD), mdLine(sc.header), mdLine(sc.trailer), sc.fail, sc.replies, sc.split, sc.sendLast, withStats)
 		streaming := i%2 == 1
 
 		// ---------- gRPC with grpc-go
